@@ -7,7 +7,7 @@
     sign <k> | signbad | unsign | stamp <p> <v> | altstamp <v> | link <k> <u> | tag <t>
     meta <k> <v> | notes <s> | validate | verify <n> <k>* | rt <0|1|2>
     tuuid <u> | tdigval <v> | tdigalg <a> | tstampval <i> <v> | tdropstamp <i> | trawstamp <p> <v>
-    tlinkurl <i> <u> | tdroplink <i> | ttag <i> <t> | tdroptag <i> | tdropmeta <k>
+    tlinkurl <i> <u> | tdroplink <i> | trawlink <k> <u> | ttag <i> <t> | tdroptag <i> | tdropmeta <k>
     tsigs <n> (<signer> HEADER)*
   HEADER := <uuid> <0|1> [<alg> <val>] <ns> (<prv> <val>)* <nl> (<key> <url>)* <nt> <tag>* <nm> (<k> <v>)* <notes>
 -/
@@ -102,6 +102,7 @@ def pAction : P Action
   | "trawstamp" :: ts => do let ((p, v), ts) ← pPair ts; pure (.tamper (.rawAddStamp p v), ts)
   | "tlinkurl" :: ts => do let (i, ts) ← pNat ts; let (v, ts) ← pStr ts; pure (.tamper (.setLinkURL i v), ts)
   | "tdroplink" :: ts => do let (i, ts) ← pNat ts; pure (.tamper (.dropLink i), ts)
+  | "trawlink" :: ts => do let ((k, u), ts) ← pPair ts; pure (.tamper (.rawAddLink k u), ts)
   | "ttag" :: ts => do let (i, ts) ← pNat ts; let (v, ts) ← pStr ts; pure (.tamper (.setTag i v), ts)
   | "tdroptag" :: ts => do let (i, ts) ← pNat ts; pure (.tamper (.dropTag i), ts)
   | "tdropmeta" :: ts => do let (k, ts) ← pStr ts; pure (.tamper (.dropMeta k), ts)
